@@ -120,7 +120,7 @@ func synthRoutes(r *rng, idx int, withVarForm bool) (*modSpec, []routeIntent) {
 		}
 		// handler
 		var handlerExpr string
-		body, stmts := synthBody(r, payloads, withVarForm && r.chance(1, 3))
+		body, stmts := synthBody(r, payloads, withVarForm && r.chance(2, 3))
 		in.Stmts = stmts
 		switch k := r.intn(6); k {
 		case 0, 1:
@@ -250,7 +250,9 @@ func synthBody(r *rng, payloads []payloadTy, varForm bool) (string, []stmtIntent
 			fmt.Fprintf(&b, "\t%s := ct.QueryParamInt64(c, %q)\n\t_ = %s\n", x, name, x)
 			st = append(st, stmtIntent{Form: "assign", Call: "QueryParamInt64", Name: name, Type: "int64"})
 		case 3:
-			if r.bool() { // the same helper through a package selector
+			if varForm { // a var declaration whose two names receive the results of one call
+				fmt.Fprintf(&b, "\tvar %s, err%s = QueryParamInt[IdItem](c, %q)\n\t_, _ = %s, err%s\n", x, x, name, x, x)
+			} else if r.bool() { // the same helper through a package selector
 				fmt.Fprintf(&b, "\t%s, err%s := inner.QueryParamInt[IdItem](c, %q)\n\t_, _ = %s, err%s\n", x, x, name, x, x)
 			} else {
 				fmt.Fprintf(&b, "\t%s, err%s := QueryParamInt[IdItem](c, %q)\n\t_, _ = %s, err%s\n", x, x, name, x, x)
@@ -274,7 +276,11 @@ func synthBody(r *rng, payloads []payloadTy, varForm bool) (string, []stmtIntent
 	}
 	if r.chance(1, 5) {
 		x := v()
-		fmt.Fprintf(&b, "\t%s, _ := c.FormFile(\"upload\")\n\t_ = %s\n", x, x)
+		if varForm {
+			fmt.Fprintf(&b, "\tvar %s, _ = c.FormFile(\"upload\")\n\t_ = %s\n", x, x)
+		} else {
+			fmt.Fprintf(&b, "\t%s, _ := c.FormFile(\"upload\")\n\t_ = %s\n", x, x)
+		}
 		st = append(st, stmtIntent{Form: "assign", Call: "FormFile", Name: "upload"})
 	}
 	if r.chance(1, 5) {
@@ -416,7 +422,7 @@ func runC13(e *env) {
 	}
 	var jobs []job
 	for i := 0; i < n; i++ {
-		vf := i%5 == 4
+		vf := i%3 == 2
 		m, in := synthRoutes(e.r, i, vf)
 		for _, p := range []string{"", "/inner_const/", "/api"} {
 			jobs = append(jobs, job{m, in, p, vf})
